@@ -85,10 +85,16 @@ def _filters_producer(ctx, h):
     if not isinstance(a, ast.Name):
         return h, None, reqn, calls
     fd = c05.single_def(h, a.id)
+    name = a.id
+    for _i in range(3):
+        # plain copies of the name (also what expanding a helper leaves)
+        if fd is not None and isinstance(fd.value, ast.Name):
+            name = fd.value.id
+            fd = c05.single_def(h, name)
     if fd is None:
         return h, None, reqn, calls
     if isinstance(fd.value, ast.Dict) and not fd.value.keys:
-        return h, a.id, reqn, calls
+        return h, name, reqn, calls
     if isinstance(fd.value, ast.Call):
         s = ctx.cg.site_of.get(fd.value)
         if s is not None and len(s.callees) == 1:
